@@ -104,7 +104,7 @@ theorem invS_step {s s' : State} {a : Act} (hI : InvS s) (hs : step? s a = some 
     simp only [step?] at hs
     repeat' split at hs
     all_goals first | (simp at hs; done) | skip
-    all_goals (simp only [Option.some.injEq] at hs; subst hs; constructor <;> simp [setH, upd, LPc.ret?] <;> grind [InvS, LPc.ret?])
+    all_goals (simp only [Option.some.injEq] at hs; subst hs; constructor <;> simp [setH, upd] <;> grind [InvS, LPc.ret?])
   | closeCbs =>
     simp only [step?] at hs
     repeat' split at hs
